@@ -178,6 +178,14 @@ def step (line : String) : String :=
     | some p, some x, some ks, some nd =>
       if specRunB p x ks (nd.map fun e => (e.1, 0)) (nd.map (·.2)) then "ok" else "violates"
     | _, _, _, _ => "bad-op"
+  | ["wf", src, tgt, sig] =>
+    -- the allocation of the REAL CopyMachine: is it well-formed, and does it meet the assumptions of `copy_machine_wf`
+    -- (seed = one above the largest handle of the target before the transfer)
+    match pNodes src, pNodes tgt, pPairs sig with
+    | some s, some t, some σ =>
+      let seed := (t.map (·.handle)).foldl max 0 + 1
+      (if wfB ⟨s, t⟩ σ then "wf" else "NOT-wf") ++ " " ++ (if allocOkB ⟨s, t⟩ σ seed then "alloc-ok" else "alloc-NOT-ok")
+    | _, _, _ => "bad-op"
   | ["tr", src, tgt, sig, regs, placed] =>
     match pNodes src, pNodes tgt, pPairs sig, pRegs regs, parseNats placed with
     | some s, some t, some σ, some rs, some pl =>
